@@ -4,7 +4,7 @@
 export GOFLAGS=-mod=mod GOPROXY=off GOSUMDB=off GOTOOLCHAIN=local
 W=/tmp/regress-seeded
 H=/tmp/regress-harness; rm -rf $H; cp -r /verif/harness $H   # snapshot: the harness may be edited while this runs
-export VERIF_HARNESS=$H VERIF_EVIDENCE_DIR=/tmp/regress-evidence
+export VERIF_HARNESS=$H VERIF_EVIDENCE_DIR=/tmp/regress-evidence VERIF_MINIMISE_S=${VERIF_MINIMISE_S:-2}
 git -C /repo worktree remove --force $W 2>/dev/null; git -C /repo worktree prune
 git -C /repo worktree add -q --detach $W HEAD || exit 2
 pass=0; fail=0
